@@ -216,6 +216,15 @@ class Rewrites(Suite):
                                  base={'name': 'm', 'data': {'tasks': ['@M.*'], 'sel': 1, 'q': '{D}/x'}})
         out.append(dict(orig=gv_case('/mnt'), rewr=gv_case('/srv'), moves=['global-vars:placeholder-equals-default'], prefix=''))
         out.append(dict(orig=gv_case('/a'), rewr=gv_case('/srv'), moves=['global-vars'], prefix=''))
+        # a string with an unresolved placeholder and a quote or backslash, without global_vars and with global_vars
+        # that do not define the placeholder: the value is the same string both times (K2e)
+        for text in ("it's {Y}", 'back\\slash {Y}', 'plain {Y}'):
+            ph = lambda gv: dict(dict(classes=cls, files={}, context=None, base={'name': 'm', 'data': {'tasks': ['@M.*'], 'sel': text}}),
+                                 **({} if gv is None else {'global_vars': gv}))
+            special = text != 'plain {Y}'
+            out.append(dict(orig=ph(None), rewr=ph({'OTHER': 1}), prefix='',
+                            moves=['global-vars:given-or-not' + (':quoted-placeholder-text' if special else '')]))
+            out.append(dict(orig=ph({}), rewr=ph({'OTHER': 1}), moves=['global-vars'], prefix=''))
         # inputs collected by a pattern: the order in which the tasks are declared must not matter
         parts = [dict(K(i, f'Part{i}', params=[P('sel')]), name=f'part_{n}') for i, n in enumerate(['b', 'a', 'c'])]
         coll = dict(K(3, 'Collect', meta_inputs=[{'name': '~part_.*'}]), name='collect')
@@ -431,6 +440,13 @@ def placeholder_default_class(violation, known):
     string that equals its default under one of the two values"""
     return (violation.get('suite') == 'rewritings'
             and violation.get('case', {}).get('moves') == ['global-vars:placeholder-equals-default'])
+
+
+def quoted_placeholder_class(violation, known):
+    """K2e: the only rewriting is whether global_vars is given at all, and a string holds an unresolved placeholder
+    together with a quote or backslash"""
+    return (violation.get('suite') == 'rewritings'
+            and violation.get('case', {}).get('moves') == ['global-vars:given-or-not:quoted-placeholder-text'])
 
 
 def path_default_class(violation, known):
@@ -757,7 +773,7 @@ class C02(Prop):
     suites = [Rewrites(), Registry(), ObjectArgOrder(), HashSeeds(), PathDefaults(), IgnoredValues(), ValueSources(), SameNamedClasses()]
     known_classes = {'object-argument-order': object_order_class, 'object-argument-order-registry': object_arg_order_class,
                      'hash-seed-set-attribute': hash_seed_class, 'placeholder-equals-default': placeholder_default_class,
-                     'path-default-repr': path_default_class}
+                     'path-default-repr': path_default_class, 'quoted-placeholder-text': quoted_placeholder_class}
     trusted_base = ['the interpreter hash seed is not in the model (partial): it is exercised by fresh interpreters only']
     assumptions = ['values are JSON-like or objects rendered by their own repr']
 
